@@ -868,7 +868,7 @@ def del_cases():
     return out
 
 
-FLAT_KINDS = ('assign', 'expr', 'if', 'if-else', 'elif-chain', 'for', 'while', 'try', 'try-finally', 'with', 'def', 'class',
+FLAT_KINDS = ('assign', 'expr', 'if', 'if-distinct', 'for-distinct', 'try-distinct', 'if-else', 'elif-chain', 'for', 'while', 'try', 'try-finally', 'with', 'def', 'class',
               'import', 'augassign', 'lambda', 'comprehension', 'mixed')
 
 
@@ -887,6 +887,12 @@ def flat_text(kind, n, indent=''):
                 L.append('v(%d)\n' % i)
             elif kind == 'if':
                 L.append('if c:\n    v = %d\n' % i)
+            elif kind == 'if-distinct':
+                L.append('if c:\n    v%d = v\n' % i)
+            elif kind == 'for-distinct':
+                L.append('for v%d in r:\n    pass\n' % i)
+            elif kind == 'try-distinct':
+                L.append('try:\n    v%d = v\nexcept E:\n    pass\n' % i)
             elif kind == 'if-else':
                 L.append('if c:\n    v = %d\nelse:\n    w = v\n' % i)
             elif kind == 'for':
